@@ -98,6 +98,11 @@ fn hb(b: &[u8]) -> String { format!("h{}", hex_or_dash(b)) }
 pub fn run_acc(acc: &str, inp: &[u8], pos: usize) -> String {
     let mut d = Decoder::new(inp);
     d.set_position(pos);
+    run_acc_on(acc, &mut d)
+}
+
+/// The same on an existing decoder (SEQ).
+pub fn run_acc_on(acc: &str, d: &mut Decoder<'_>) -> String {
     macro_rules! num { ($m:ident) => {{ let r = d.$m(); show_res(r, d.position(), |v| v.to_string()) }} }
     match acc {
         "u8" => num!(u8), "u16" => num!(u16), "u32" => num!(u32), "u64" => num!(u64),
